@@ -301,18 +301,14 @@ theorem handleDhtPeers_life (m : M) (ne : Bool) (h : Life m.1) : Life (handleDht
 
 /-! ### commands -/
 
-theorem start_life (m : M) (h : Life m.1) : Life (start m).1 := by
-  unfold start
-  split
-  · exact h
-  · next he =>
-    have he' : m.1.errC = false := by simpa using he
-    obtain ⟨i1, i2, i3, i4, i5, i6, i7, i8⟩ := h.idle (Or.inl he')
-    have hk := h.leaked
-    have hni := h.ni
-    dsimp only
-    repeat' split
-    all_goals (constructor <;> simp_all [St.crash, FilesExist])
+theorem startCore_life (m : M) (h : Life m.1) (he' : m.1.errC = false) : Life (startCore m).1 := by
+  obtain ⟨i1, i2, i3, i4, i5, i6, i7, i8⟩ := h.idle (Or.inl he')
+  have hk := h.leaked
+  have hni := h.ni
+  unfold startCore
+  dsimp only
+  repeat' split
+  all_goals (constructor <;> simp_all [St.crash, FilesExist])
 
 theorem handleStopped_life (m : M) (h : Life m.1) (hs : m.1.stopAnn = true) : Life (handleStopped m).1 := by
   obtain ⟨i1, i2, i3, i4, i5, i6, i7, i8⟩ := h.idle (Or.inr hs)
@@ -323,13 +319,30 @@ theorem handleStopped_life (m : M) (h : Life m.1) (hs : m.1.stopAnn = true) : Li
   unfold handleStopped
   dsimp only
   split
-  · apply start_life
+  · apply startCore_life _ _ (by simp)
     simp only [onSt_fst]
     have hni0 := h0.ni
     have hid0 := h0.idle
     have hk0 := h0.leaked
     constructor <;> simp_all [FilesExist]
   · simpa using h0
+
+theorem startPre_life (m : M) (h : Life m.1) : Life (startPre m).1 := by
+  unfold startPre
+  split
+  · next hs =>
+    exact handleStopped_life _ (h.of_frame rfl rfl rfl rfl rfl rfl rfl rfl rfl rfl rfl rfl rfl rfl rfl rfl) (by simpa using hs)
+  · exact h
+
+theorem startGo_life (m : M) (h : Life m.1) : Life (startGo m).1 := by
+  unfold startGo
+  split
+  · exact h
+  · next he => exact startCore_life m h (by simpa using he)
+
+theorem start_life (m : M) (h : Life m.1) : Life (start m).1 := by
+  rw [start_eq]
+  exact startGo_life _ (startPre_life m h)
 
 theorem handleVerifyCommand_life (m : M) (h : Life m.1) : Life (handleVerifyCommand m).1 := by
   unfold handleVerifyCommand
@@ -339,7 +352,7 @@ theorem handleVerifyCommand_life (m : M) (h : Life m.1) : Life (handleVerifyComm
     have he : m.1.errC = false := by
       have := (status_stopped_iff (onSt m fun s => { s with doVerify := true }).1).1 hst
       simpa using this
-    apply start_life
+    apply startCore_life _ _ (by simpa using he)
     simp only [onSt_fst]
     obtain ⟨i1, i2, i3, i4, i5, i6, i7, i8⟩ := h.idle (Or.inl he)
     have hk := h.leaked
